@@ -112,6 +112,12 @@ type Throw struct {
 	Class string
 	Args  []Expr
 }
+// Verbatim renders the given physical lines as they are and executes S instead
+// (used for multi-line literals / comments whose layout the renderer would not produce).
+type Verbatim struct {
+	Lines []string
+	S     Stmt
+}
 type Break struct{}
 type Continue struct{}
 type Empty struct{}
